@@ -4,6 +4,10 @@ import re
 from .ast import is_log_block
 
 
+# named scalar constants of the crate being rendered (set by lib/nf.area_nf / lib/machine.tokenizer_tables): uses are replaced by the value
+CONSTS = {}
+
+
 def _pat_names(p, out):
     k = p.get("k")
     if k == "PIdent":
@@ -96,6 +100,8 @@ def render(body_or_expr, params=(), subst=None, show=None, prefix="p"):
                 return names[p]
             if p in subst:
                 return subst[p]
+            if p in CONSTS and CONSTS[p].get("k") in ("Lit", "Unary", "Cast", "Paren"):
+                return ex(CONSTS[p])
             return show(e)
         if k == "Lit":
             if e["t"] == "str":
